@@ -136,6 +136,10 @@ def _ob_open(vx: int, vy: int, vz: int, vlen: int, fmt: int, idk: int, groups: b
         return False                     # neither a refused nor an accepted open changes content
     if opened != accept:
         return False
+    if not opened and fakeh5.open_handles(PATH):
+        # a refused open must not leave the backend file open (HDF5 shares a file between the
+        # handles of one process: a leaked read-write handle makes later read-only opens writable)
+        return False
     if opened:
         if [b.name for b in f.blocks] != (["blk"] if groups else []):
             return False
